@@ -40,4 +40,17 @@ m = {
     "notes": "Every check regenerates its verification conditions from /repo's working tree on each run. Known findings: /verif/known_findings.txt. Self-test corpus: /verif/selftest (python3 selftest/run.py). Seeded changes from independent agents: /verif/seeded.",
 }
 json.dump(m, open(os.path.join(V, "MANIFEST.json"), "w"), indent=1)
+# per-property "not covered" clauses for the evidence files (read by gocv at run time)
+nc = {}
+for i in ids:
+    p = props.get(i)
+    if p and p.get("claimed"):
+        note = p.get("note", "")
+        k = note.find("Not covered")
+        if k >= 0:
+            part = note[k:].split(":", 1)[1] if ":" in note[k:] else note[k:]
+            nc[i] = [x.strip().rstrip(".") for x in part.split(",") if x.strip()]
+        else:
+            nc[i] = []
+json.dump(nc, open(os.path.join(V, "specs", "not_covered.json"), "w"), indent=1)
 print("claimed:", [c["property_id"] for c in checks])
